@@ -18,7 +18,9 @@ ModBits(S, i) == IF i > Len(Mods) THEN 0 ELSE (IF i \in S THEN Mods[i][2] ELSE 0
 ModSets == { S \in SUBSET (1..Len(Mods)) : Cardinality(S) <= 3 } \cup {1..Len(Mods)}
 KeyVec == { [kind |-> "key", mode |-> "expect", text |-> ModText(S, 1) \o n[1], exptext |-> ModText(S, 1) \o n[2], expname |-> n[2], expbits |-> ModBits(S, 1)] : S \in ModSets, n \in Names }
 \* hostile token grammar: every concatenation of up to three tokens; only totality and the print/parse round trip are judged
-Tokens == { "", "f", "f1", "f99999999999999999999", "f-1", "+", "ctrl", "CTRL", "ctrl+", "a", "b", " ", "  ", "shift+a", "a+b", "escape", "F12", "\"a\"", "None", "space", "tab", "enter", "x y", "+a" }
+Tokens == { "", "f", "f1", "f99999999999999999999", "f-1", "+", "ctrl", "CTRL", "ctrl+", "a", "b", " ", "  ", "shift+a", "a+b", "escape", "F12", "\"a\"", "None", "space", "tab", "enter", "x y", "+a",
+            \* quoted characters whose printed form is the name of another key
+            "\"\t\"", "\"\n\"", "\" \"", "\t", "\"" }
 Hostile == { [kind |-> "chord", mode |-> "free", text |-> a \o b \o c, exptext |-> "", expname |-> "", expbits |-> 0] : a \in Tokens, b \in Tokens, c \in Tokens }
 ASSUME ndJsonSerialize(IOEnv.OUT, SetToSeq(KeyVec) \o SetToSeq(Hostile))
 ASSUME PrintT(<<"GENERATED", Cardinality(KeyVec), Cardinality(Hostile)>>)
